@@ -71,7 +71,7 @@ __CPROVER_ensures(vp_flag ==> (vp_g0 + 1 < vp_nc ==> DC[vp_g0] <= DC[vp_g0 + 1])
 void h_prepare(void) { prepare(); __CPROVER_assert(0, "VP_REACH end"); }
 """ % ("size_t vp_g0;\n" + cmpdef, blk)
     return dict(unit="K11pre_sorted_" + site, lang="c", source=rel + " (candidate list sorted before the lookup is told so)", text=fn,
-                entry="h_prepare", enforce="prepare", replace=[n for n in ("vp_sort", "vp_stable_sort", "vp_partial_sort") if (n + "(") in blk], mode="proof", timeout=120,
+                entry="h_prepare", enforce="prepare", replace=[n for n in ("vp_sort", "vp_stable_sort", "vp_partial_sort") if (n + "(") in blk], mode="proof", timeout=600,
                 bound="any number of candidates", rewrites=log, dropped=["everything around the block"],
                 functions={"_mcb_sva_trees[%s]: list sorted when sorted_cycles is passed" % site: "proved against the std algorithm contracts"},
                 assumptions=["contracts of std::sort / std::stable_sort / std::partial_sort as stated in the unit"], trusted=["cbmc 6.11 + DFCC"])
